@@ -53,3 +53,45 @@ Example c20_nonvacuous :
   load tr (mk "H" [IOG (Some "f") None [IGene "h1" None; IOG (Some "g") None [IProp "a" "b"]]]) = Err ValueError /\
   load tr (mk "H" [IOG (Some "f") None [IGene "h1" None; IPG None []]]) = Err IndexError.
 Proof. vm_compute. repeat split; try reflexivity. eexists. reflexivity. Qed.
+
+(* ---------- species_resolve_mode="OMA" (Oma.v) ---------- *)
+From PyHam Require Import Oma.
+From PyHam.proofs Require Import OmaFacts.
+
+(* a successful OMA-mode load: every species block is attached to a leaf - the named node itself, or,
+   when the name is an internal node, its only code-named child *)
+Theorem c20_oma_success_means_sound : forall t d l,
+  load_oma t d = Ok l -> forall sp, In sp (d_species d) -> exists q, oma_resolves t sp q.
+Proof. exact oma_success_means_sound. Qed.
+Print Assumptions c20_oma_success_means_sound.
+
+(* an internal node named as a species is rejected unless it has exactly one code-named child and
+   that child is a leaf *)
+Theorem c20_oma_internal_rejected : forall t d sp p,
+  In sp (d_species d) -> search t (sp_name sp) = [p] -> is_leaf t p = false ->
+  (forall s k, sub t p = Some s -> code_kids 0 (skids s) = [k] -> is_leaf t (k :: p) = false) ->
+  exists e, load_oma t d = Err e.
+Proof. exact oma_internal_rejected. Qed.
+Print Assumptions c20_oma_internal_rejected.
+
+(* otherwise OMA mode is the plain load of the document with the species blocks renamed to the
+   leaves they are attached to - so every other theorem about `load` applies to it *)
+Theorem c20_oma_is_plain_load : forall t d,
+  Forall (oma_names_ok t) (d_species d) -> load_oma t d = load t (oma_doc t d).
+Proof. exact load_oma_plain. Qed.
+Print Assumptions c20_oma_is_plain_load.
+
+Theorem c20_oma_leaves_unchanged : forall t d,
+  (forall sp, In sp (d_species d) -> forall p, search t (sp_name sp) = [p] -> is_leaf t p = true) ->
+  load_oma t d = load t d.
+Proof. exact load_oma_leaves. Qed.
+Print Assumptions c20_oma_leaves_unchanged.
+
+Definition tro : stree :=
+  SNode "R" [SNode "X" []; SNode "Homo" [SNode "HUMAN" []]; SNode "Pan" [SNode "PANTR" []; SNode "PANPA" []]].
+Example c20_oma_nonvacuous :
+  (exists l, load_oma tro (mk "Homo" [IOG (Some "f") None [IGene "h1" None; IGene "h2" None]]) = Ok l) /\
+  load tro (mk "Homo" [IOG (Some "f") None [IGene "h1" None; IGene "h2" None]]) = Err TypeError /\
+  load_oma tro (mk "Pan" [IOG (Some "f") None [IGene "h1" None; IGene "h2" None]]) = Err TypeError /\
+  load_oma tro (mk "R" [IOG (Some "f") None [IGene "h1" None; IGene "h2" None]]) = Err TypeError.
+Proof. vm_compute. repeat split; try reflexivity. eexists. reflexivity. Qed.
